@@ -85,29 +85,24 @@ Proof.
   rewrite chain_ents_filter. unfold w_list, w_ents. destruct (ts_writer ts); cbn; [now rewrite app_nil_r|reflexivity].
 Qed.
 
-Lemma posis_P3 c nid T p : 0 < c_hdr c -> TInv c nid T -> CNE T -> ts_index T = Some p -> PosIs T p -> P3 c nid T.
+Lemma posis_PGood c nid T p : 0 < c_hdr c -> TInv c nid T -> CNE T -> PosIs T p -> PGood c T p.
 Proof.
-  intros Hh Hinv Hcne Hidx Hpos. split; [exact Hcne|]. rewrite Hidx.
+  intros Hh Hinv Hcne Hpos.
   pose proof Hinv as [Hp Hu Hch Hw Hnd Hids Htl Hidxr Hend Hcur Hst Htail Hhyd Hcnt].
   unfold PosIs in Hpos. destruct (p_tail p) eqn:Etail.
-  - destruct Hpos as (w & Hw' & Ha & Hri & Hoff).
+  - destruct Hpos as (w & Hw' & Ha & Hri & Hoff & Ew).
     pose proof (Htail w Hw') as Hokw.
     assert (Hun : unread c T = ents_from c (b_ents w) (tail_start T w)).
     { unfold unread. fold (chain_of T). rewrite Hri. unfold chain_of. rewrite skipn_all, Hw'. reflexivity. }
-    assert (Hcase : b_ents w = [] \/ b_ents w <> []) by (destruct (b_ents w); [left; reflexivity|right; discriminate]).
-    destruct Hcase as [Ew|Ew].
-    + right. left. split; [exact Etail|]. exists w.
-      assert (Hz : tail_start T w = 0). { unfold okoff in Hokw. rewrite Ew in Hokw. cbn in Hokw. lia. }
-      repeat split; auto; try congruence. rewrite Hun, Ew. reflexivity.
-    + left. exists (length (chain_of T)), w.
-      assert (Hm : memne T = chain_of T ++ [w]).
-      { rewrite (memne_cne T Hcne). unfold w_list. rewrite Hw'. cbn [filter].
-        apply nonempty_b_true in Ew. now rewrite Ew. }
-      split; [rewrite Hm; rewrite nth_error_app2 by lia; now rewrite Nat.sub_diag|].
-      rewrite Etail. split; [congruence|]. split; [rewrite Hoff; exact Hokw|].
-      rewrite Hun, Hm. unfold from. rewrite skipn_app, skipn_all, Nat.sub_diag. cbn [app skipn chain_ents flat_map].
-      rewrite app_nil_r, Hoff. reflexivity.
-  - destruct Hpos as (Ha & Hlt & Hoff). left.
+    exists (length (chain_of T)), w.
+    assert (Hm : memne T = chain_of T ++ [w]).
+    { rewrite (memne_cne T Hcne). unfold w_list. rewrite Hw'. cbn [filter].
+      apply nonempty_b_true in Ew. now rewrite Ew. }
+    split; [rewrite Hm; rewrite nth_error_app2 by lia; now rewrite Nat.sub_diag|].
+    rewrite Etail. split; [congruence|]. split; [rewrite Hoff; exact Hokw|].
+    rewrite Hun, Hm. unfold from. rewrite skipn_app, skipn_all, Nat.sub_diag. cbn [app skipn chain_ents flat_map].
+    rewrite app_nil_r, Hoff. reflexivity.
+  - destruct Hpos as (Ha & Hlt & Hoff).
     destruct (nth_error (chain_of T) (r_idx (reader_of T))) as [b|] eqn:Eb; [|apply nth_error_None in Eb; lia].
     exists (r_idx (reader_of T)), b.
     rewrite (memne_cne T Hcne).
@@ -119,6 +114,11 @@ Proof.
     rewrite Hun. unfold from. rewrite skipn_app, Hsk.
     replace (r_idx (reader_of T) - length (chain_of T))%nat with 0%nat by lia.
     cbn [skipn app]. rewrite chain_ents_app, chain_ents_wne, Hoff. reflexivity.
+Qed.
+
+Lemma posis_P3 c nid T p : 0 < c_hdr c -> TInv c nid T -> CNE T -> ts_index T = Some p -> PosIs T p -> P3 c nid T.
+Proof.
+  intros Hh Hinv Hcne Hidx Hpos. split; [exact Hcne|]. rewrite Hidx. left. eapply posis_PGood; eauto.
 Qed.
 
 (* the invariant only looks at these components of the topic state *)
